@@ -5,7 +5,7 @@
     the decoded value, which is well typed: exactly one accepted encoding per value), PFree
     (prefix freeness), AllocOK (storage reserved ahead of the data <= cap s * bytes consumed). *)
 From Coq Require Import NArith List Bool.
-From CB Require Import Common.Codec Common.CodecProofs Chain.ChainSchemas Chain.ChainSchemasProofs.
+From CB Require Import Common.Codec Common.CodecProofs Chain.ChainSchemas Chain.ChainSchemasProofs Gen.ChainSchemas Chain.GenTie.
 Import ListNotations.
 Local Open Scope N_scope.
 
@@ -223,6 +223,41 @@ Print Assumptions level1_update_laws.
 Theorem ar_info_laws : forall valid, Laws valid s_ar_info.
 Proof. exact (fun valid => schema_codec_laws valid s_ar_info (@eq_refl bool true <: schema_wf s_ar_info = true)). Qed.
 Print Assumptions ar_info_laws.
+
+(** ** Tie to the Rust declarations: the schema terms regenerated from the source on every run
+    (translators/gen_chain_schemas.py) equal the hand-written ones (fully derived types) or have the same
+    byte layout (derived Serial, hand-written Deserial), and every generated term has the laws. *)
+Theorem generated_schemas_match :
+  g_TransactionHeader = s_transaction_header /\ g_UpdateHeader = s_update_header /\ g_GASRewards = s_gas_rewards
+  /\ g_GASRewardsV1 = s_gas_rewards_v1 /\ g_CooldownParameters = s_cooldown_parameters /\ g_TimeParameters = s_time_parameters
+  /\ g_PoolParameters = s_pool_parameters /\ g_CommissionRanges = s_commission_ranges /\ g_MintRate = s_mint_rate
+  /\ g_FinalizationCommitteeParameters = s_finalization_committee_parameters /\ g_AuthorizationsV0 = s_authorizations_v0
+  /\ g_AmountFraction = s_amount_fraction /\ g_UpdateKeysThreshold = s_update_keys_threshold
+  /\ g_TransactionTime = s_transaction_time /\ g_UpdatePublicKey = s_verify_key.
+Proof. exact generated_equal. Qed.
+Print Assumptions generated_schemas_match.
+
+Theorem generated_layouts_match :
+  layout_of g_Memo = layout_of s_memo /\ layout_of g_RegisteredData = layout_of s_registered_data
+  /\ layout_of g_PayloadSize = layout_of s_payload_size /\ layout_of g_Ratio = layout_of s_ratio
+  /\ layout_of g_LeverageFactor = layout_of s_leverage_factor
+  /\ layout_of g_MintDistributionV0 = layout_of s_mint_distribution_v0
+  /\ layout_of g_MintDistributionV1 = layout_of s_mint_distribution_v1
+  /\ layout_of g_TransactionFeeDistribution = layout_of s_transaction_fee_distribution
+  /\ layout_of g_AccessStructure = layout_of s_access_structure
+  /\ layout_of g_UpdateInstructionSignature = layout_of s_update_instruction_signature
+  /\ layout_of g_TimeoutParameters = layout_of s_timeout_parameters /\ layout_of g_UrlText = layout_of s_url_text
+  /\ layout_of g_HigherLevelAccessStructure = layout_of s_higher_level_access_structure.
+Proof. exact generated_layout. Qed.
+Print Assumptions generated_layouts_match.
+
+Theorem generated_schemas_all_laws : forall valid s, In s gen_all -> Laws valid s.
+Proof. exact generated_laws. Qed.
+Print Assumptions generated_schemas_all_laws.
+
+Theorem generated_table_all_laws : forall valid id s, In (id, s) gen_schema_table -> Laws valid s.
+Proof. exact generated_table_laws. Qed.
+Print Assumptions generated_table_all_laws.
 
 (** ** Finding F4 (ConfigureBaker bitmap).  After the fix the decoder is the schema with mask
     0x01ff and is canonical: *)
